@@ -11,6 +11,9 @@ op:   `msg <s|c> <method> <id|noid> <shape> <meta> tag=<hex> iver=<hex> lvl=<hex
 obs:  `w=<none|ok|e<code>[:v1,v2..]|multiN|strayN> mw=<methods|-> uh=<handlers|-> st=<tag@ver|->/<0|1>/<level> rv=<..|->`
       (`rv`: protocolVersion of an initialize result / supportedVersions of a discover result) or `panic` / `stuck`.
 
+F34: the version a request's `_meta` names must be one the session's TRANSPORT serves (the `tr` record),
+the server/discover probe excepted; -32022 carries the transport's versions.
+
 The monitors are written from the property text (codes as literal numbers, the lifecycle methods
 named explicitly) and read the session state from the implementation's own observations; they do
 not consult the model's state.
@@ -75,7 +78,8 @@ def parseMsg : List String → Option Msg
     if side != "s" && side != "c" then none
     if id != "id" && id != "noid" then none
     pure { side := side, mname := name, muts := words muts,
-           req := { method := methodOfName name, hasId := id == "id", params := shape, «meta» := mt, tag := tag, iver := iver, lvl := lvl } }
+           req := { method := methodOfName name, hasId := id == "id", params := shape, «meta» := mt, tag := tag, iver := iver, lvl := lvl,
+                    cancelIdBad := name == "notifications/cancelled" && (words muts).contains "requestId:wrong" } }
   | _ => none
 
 /-! ## rendering the model's prediction -/
@@ -155,6 +159,9 @@ structure Mon where
   per-request metadata naming a supported version: only then may feature traffic be served. Kept from
   what went over the wire, independently of what the implementation's session state claims. -/
   opened : Bool := false
+  /-- the versions the case's transport serves: `filterSupportedVersions` of the predicate named by the
+  `tr` record (an INPUT of the case; a case without `tr` record runs on a transport that serves all) -/
+  tv : List String := supportedProtocolVersions
 
 def stInit (st : String) : Bool := !(st.startsWith "-/")
 def stInitd (st : String) : Bool := match st.splitOn "/" with | [_, d, _] => d == "1" | _ => false
@@ -185,7 +192,13 @@ def crashClause (m : Msg) : String :=
 /-- The property's answer for an envelope, given only the implementation's own previous session
 state. `none` = any single answer (the handler decides). Precedence as documented in Props.lean:
 per-request metadata, then version, then the lifecycle gate, then method / id / params checks. -/
-def specWire (prevInit : Bool) (m : Msg) : Option String :=
+def acceptedBy (tv : List String) (m : Msg) : Bool :=
+  -- the property after the F34 repair: the version named by `_meta` must be one the session's transport
+  -- serves; the server/discover probe only has to name one the SDK knows
+  if m.mname == "server/discover" then supportedProtocolVersions.contains (metaVersion m.req)
+  else tv.contains (metaVersion m.req)
+
+def specWire (tv : List String) (prevInit : Bool) (m : Msg) : Option String :=
   let r := m.req
   let tbl := if m.side == "s" then serverMethodInfos else clientMethodInfos
   let flags := r.method.bind (lookup tbl)
@@ -193,8 +206,8 @@ def specWire (prevInit : Bool) (m : Msg) : Option String :=
   let new := m.side == "s" && usesNew r
   if preemptDrops r then some "none"
   else if new && !metaComplete r then rej (-32602)
-  else if new && !supportedProtocolVersions.contains (metaVersion r) then
-    some (if r.hasId then s!"e-32022:{",".intercalate supportedProtocolVersions}" else "none")
+  else if new && !acceptedBy tv m then
+    some (if r.hasId then s!"e-32022:{",".intercalate tv}" else "none")
   else if new && specRemoved.contains m.mname then rej (-32601)
   else if m.side == "s" && !new && m.mname == "server/discover" then rej (-32601)
   else if m.side == "s" && !new && !prevInit && !(["initialize", "notifications/initialized", "ping"].contains m.mname) then rej 0
@@ -248,10 +261,17 @@ def monitor (mon : Mon) (m : Msg) (impl : String) : Option String :=
         some "C06: ping not served"
       else if new && !metaComplete r && (mw != "-" || uh != "-" || st != mon.prevSt || (r.hasId && w != "e-32602")) then
         some "C06: request with incomplete per-request metadata was not refused with -32602 (or had an effect)"
-      else if new && metaComplete r && !supportedProtocolVersions.contains (metaVersion r) &&
-          (mw != "-" || st != mon.prevSt || (r.hasId && w != s!"e-32022:{",".intercalate supportedProtocolVersions}")) then
+      else if new && metaComplete r && m.mname != "server/discover" && supportedProtocolVersions.contains (metaVersion r) &&
+          !mon.tv.contains (metaVersion r) &&
+          (mw != "-" || uh != "-" || st != mon.prevSt || (r.hasId && w != s!"e-32022:{",".intercalate mon.tv}")) then
+        some s!"C06: F34 {m.mname} whose _meta names {metaVersion r}, a version the session's transport does not serve (it serves {showVersions mon.tv}), was not refused with -32022 listing the transport's versions: answered {w}, handlers mw={mw} uh={uh}, session state {mon.prevSt} -> {st}"
+      else if new && metaComplete r && !acceptedBy mon.tv m && mw == "-" && uh == "-" && st == mon.prevSt && r.hasId &&
+          w == s!"e-32022:{",".intercalate supportedProtocolVersions}" && w != s!"e-32022:{",".intercalate mon.tv}" then
+        some s!"C06: F34 unsupported per-request version refused with -32022 listing the SDK's versions instead of the versions the session's transport serves ({showVersions mon.tv})"
+      else if new && metaComplete r && !acceptedBy mon.tv m &&
+          (mw != "-" || st != mon.prevSt || (r.hasId && w != s!"e-32022:{",".intercalate mon.tv}")) then
         some "C06: unsupported per-request version not answered with -32022 listing the supported versions"
-      else if new && metaComplete r && supportedProtocolVersions.contains (metaVersion r) && specRemoved.contains m.mname &&
+      else if new && metaComplete r && acceptedBy mon.tv m && specRemoved.contains m.mname &&
           (mw != "-" || (r.hasId && w != "e-32601")) then
         some s!"C06: {m.mname} is removed from the 2026-07-28 protocol but was not answered method-not-found"
       else if m.mname == "server/discover" && !new && (mw != "-" || (r.hasId && w != "e-32601")) then
@@ -261,7 +281,7 @@ def monitor (mon : Mon) (m : Msg) (impl : String) : Option String :=
     | some c => some c
     | none =>
       -- ---------------- C02: the code mapping
-      match specWire prevInit m with
+      match specWire mon.tv prevInit m with
       | none => none
       | some want =>
         if w == want then none
@@ -297,7 +317,7 @@ def engine : Engine DState where
       | none => (d, { model := "bad-op" })
       | some f =>
         let tv := transportVersions f
-        ({ d with st := fresh tv }, { model := s!"sv={showVersions tv}" })
+        ({ d with st := fresh tv, mon := { d.mon with tv := tv } }, { model := s!"sv={showVersions tv}" })
     | _ =>
       match parseMsg toks with
       | none => (d, { model := "bad-op" })
@@ -315,7 +335,7 @@ def engine : Engine DState where
         let mon' : Mon :=
           if !isObs then { d.mon with dead := true }
           else
-            let validMeta := m.side == "s" && usesNew r && metaComplete r && supportedProtocolVersions.contains (metaVersion r)
+            let validMeta := m.side == "s" && usesNew r && metaComplete r && acceptedBy d.mon.tv m
             let accepted := m.side == "s" && m.mname == "initialize" && field "w" impl == some "ok"
             { d.mon with prevSt := (field "st" impl).getD d.mon.prevSt, opened := d.mon.opened || validMeta || accepted }
         ({ d with st := st', mon := mon' }, { model := model, violated := viol })
